@@ -26,6 +26,8 @@ type Solver struct {
 	Time     time.Duration
 	log      io.Writer
 	Bin      string
+	retrying bool
+	Retries  int
 }
 
 var solverBin = "z3"
@@ -105,6 +107,16 @@ func (s *Solver) CheckAssuming(t *Term) string {
 	case "unsat":
 		s.NUnsat++
 	default:
+		if !strings.HasPrefix(line, "(error") && !s.retrying {
+			// a time-out under load is not a verdict: ask once more with six times the budget
+			s.retrying = true
+			fmt.Fprintf(&s.buf, "(set-option :timeout %d)\n", 6*solverTimeoutMs)
+			res := s.CheckAssuming(t)
+			fmt.Fprintf(&s.buf, "(set-option :timeout %d)\n", solverTimeoutMs)
+			s.retrying = false
+			s.Retries++
+			return res
+		}
 		s.NUnknown++
 		if strings.HasPrefix(line, "(error") {
 			fmt.Fprintln(os.Stderr, "solver error:", line)
